@@ -42,6 +42,11 @@ def case_requests(rng, seq, s, objects=True, explicit=True):
             for t in {rng.choice([0, 1, n - 1, n]), rng.choice([n + 1, n + 2, 2 * n, 2 * n + 1]), rng.randrange(0, 2 * n + 2)}:
                 if t >= 0:
                     reqs.append(("rotate_complex_pt", [stab, ptab, t]))
+            # any Python int (negative included) or None through the explicit-turns model
+            reqs.append(("rotate_complex_pt_turns", [stab, ptab, rng.choice([None, -2, -1, 0, 1, n - 1, n, n + 1, 2 * n + 1])]))
+    if explicit:
+        reqs.append(("rotate_complex_db_turns", [seq, sst, rng.choice([None, -1, 0, 1, n - 1, n])]))
+        reqs.append(("rotate_complex_db_turns", [seq, sst, rng.choice([n, n + 1, n + 2, 2 * n, 2 * n + 1, rng.randrange(0, 3 * n + 2)])]))
     if objects:
         reqs.append(("obj_rotate", [seq, sst, None]))
         reqs.append(("obj_rotate_pt", [seq, sst, None]))
@@ -185,7 +190,7 @@ def run(ctx):
     ctx.cov["rule"] = ("every well-formed structure with non-empty strands up to the tier's length bound (8 quick / 10 "
                        "thorough) with generated domain content, random structures up to 60 strands / depth 100, single "
                        "strands, disconnected and rotationally symmetric complexes, each through rotate_complex_once, "
-                       "rotate_complex_db, rotate_complex_pt (turns None and explicit), ComplexS.rotate / rotate_pt / "
+                       "rotate_complex_db and rotate_complex_pt (turns None and every kind of explicit int: negative, 0, < n, n, > n), ComplexS.rotate / rotate_pt (likewise) / "
                        "rotate_pairtable_loc; plus mutated (ill-formed, empty-strand, misaligned) inputs; "
                        "non-trivial = distinct results on which model and implementation agree")
     ctx.cov["small_scope_structures"] = len(small)
